@@ -98,7 +98,8 @@ class C15(Prop):
             'variables (with variable-variable chains) and up to two leaves supplied by a two-solution predicate (two facts, or a first clause that binds its argument through a chain of one or two intermediate variables); '
             'Hypothesis draws the ORDER of the equations (outer first / inner later / chains); the clause p(X) :- eqs is '
             'queried directly, through findall/3, and through assert-then-read; an API-level variant opens the same '
-            'equations as nested unify generators. At each answer reify(get_value(v)) must equal R\'s answer and '
+            'equations as nested unify generators; a long-list variant builds lists of 20-160 elements through recursive '
+            'predicates (copy, append, counting) so that every tail is bound one level later. At each answer reify(get_value(v)) must equal R\'s answer and '
             'to_python(v) the specified Python image; the objects returned by get_value are SAVED, the generator is '
             'advanced or closed, and the saved objects are re-inspected without dereferencing: a ground answer must still '
             'denote the same term and contain no Variable at any depth. Non-trivial = some variable inside a structure '
@@ -123,7 +124,8 @@ class C15(Prop):
         while pool:
             order.append(pool.pop(src.n(len(pool))))
         eqs = [eqs[i] for i in order]
-        return {'eqs': eqs, 'mode': src.pick(['direct', 'direct', 'findall', 'assert', 'api']), 'close_after': src.n(3), 'multi_form': src.n(3)}
+        mode = src.pick(['direct', 'direct', 'findall', 'assert', 'api', 'long-list'])
+        return {'eqs': eqs, 'mode': mode, 'close_after': src.n(3), 'multi_form': src.n(3), 'n': src.pick([20, 60, 99, 100, 101, 130, 160])}
 
     def sample_view(self, case):
         return {'equations_in_order': ['%s %s %s' % (show(tt(a)), '=' if k == 'eq' else 'in {z,', show(tt(b)) + ('' if k == 'eq' else '}')) for k, a, b in case['eqs']],
@@ -187,6 +189,8 @@ class C15(Prop):
         detail = dict(self.sample_view(case))
         if mode == 'api':
             return self.decide_api(eqs, detail, classes, nt)
+        if mode == 'long-list':
+            return self.decide_long(case, detail)
         text = C.plain_text(clauses)
         detail['text'] = text
         comp = C.compile_case(text)
@@ -253,6 +257,58 @@ class C15(Prop):
             return FAIL('exception:' + impl.exc_signature(e), dict(detail, error='%s: %s' % (type(e).__name__, e)))
         return OK(nt, sorted(set(classes)))
 
+    def decide_long(self, case, detail):
+        """a long list built by a recursive predicate (every tail is the next level's variable, bound later): the
+        collected value must stay a complete, variable-free list after the query has finished"""
+        n = case.get('n', 100)
+        text = ('cp([], []).\ncp([H|T], [H|T2]) :- cp(T, T2).\napp([], L, L).\napp([H|T], L, [H|R]) :- app(T, L, R).\n'
+                'mk(z, []).\nmk(s(N), [k|T]) :- mk(N, T).\n')
+        comp = C.compile_case(text)
+        if comp[0] == 'exc':
+            return FAIL(comp[1], dict(detail, error=comp[2]))
+        items = [('i', i % 7) for i in range(n)]
+        lst = mklist(items)
+        form = case.get('multi_form', 0)
+        try:
+            yp = impl.BudgetYP(20 * n + 500)
+            yp.load_script_from_string(comp[1])
+            X = yp.variable()
+            if form == 0:
+                g = yp.query('cp', [impl.to_engine(yp, lst, {}), X])
+                exp = lst
+            elif form == 1:
+                g = yp.query('app', [impl.to_engine(yp, mklist(items[:n // 2]), {}), impl.to_engine(yp, mklist(items[n // 2:]), {}), X])
+                exp = lst
+            else:
+                pe = ('a', 'z')
+                for _ in range(n):
+                    pe = ('f', 's', (pe,))
+                g = yp.query('mk', [impl.to_engine(yp, pe, {}), X])
+                exp = mklist([('a', 'k')] * n)
+            saved = []
+            for _ in g:
+                val = impl.get_value(X)
+                if impl.flat([val]) != impl.flat_ref([exp]):
+                    return FAIL('long-list:answer-differs', dict(detail, n=n))
+                saved.append(val)
+            if len(saved) != 1:
+                return FAIL('long-list:%d-answers' % len(saved), dict(detail, n=n))
+            # after the query has finished
+            stack = [saved[0]]
+            while stack:
+                x = stack.pop()
+                if isinstance(x, impl.Variable):
+                    return FAIL('saved-ground-answer-contains-variable', dict(detail, n=n, note='long list built by recursion, form %d' % form))
+                if isinstance(x, impl.Functor):
+                    stack.extend(x._args)
+            if impl.flat([saved[0]]) != impl.flat_ref([exp]):
+                return FAIL('saved-answer-changed', dict(detail, n=n))
+        except impl.ImplBudget:
+            return FAIL('impl-does-not-terminate', detail)
+        except RecursionError:
+            return FAIL('exception:RecursionError', dict(detail, n=n))
+        return OK(True, ['mode:long-list', 'length:%d' % n, 'ground-answer-rechecked-after-backtracking'])
+
     def decide_api(self, eqs, detail, classes, nt):
         from yldprolog.engine import unify
         from ..terms import sto
@@ -286,6 +342,16 @@ class C15(Prop):
                 py = impl.to_python(ex)
                 if py != image(exp):
                     return FAIL('api:to_python-differs', dict(detail, expected=repr(image(exp)), observed=repr(py)))
+            # to_python / get_value applied directly to the STRUCTURES of the equations (not through a variable)
+            for k, a, b in eqs:
+                if b[0] != 'f':
+                    continue
+                eb = impl.to_engine(yp, b, vmap)
+                want = canon(resolve(b, s))
+                if impl.reify(impl.get_value(eb), {}) != want:
+                    return FAIL('api:get_value-of-structure-differs', dict(detail, structure=show(b)))
+                if not has_partial_list(want) and impl.to_python(eb) != image(want):
+                    return FAIL('api:to_python-of-structure-differs', dict(detail, structure=show(b), expected=repr(image(want)), observed=repr(impl.to_python(eb))))
         except RecursionError:
             return FAIL('exception:RecursionError', detail)
         finally:
